@@ -89,7 +89,7 @@ struct FaultSweep : GridBase {
           for (uintmax_t pos : ps) {
             if (g_cut) return;
             if ((op == F_INSERT_IL || op == F_ASSIGN_IL || op == F_APPEND_IL || op == F_CTOR_IL) && c > 3) continue;
-            for (int kind = 0; kind < ((op == F_INSERT_RANGE || op == F_ASSIGN_RANGE || op == F_APPEND_RANGE || op == F_CTOR_RANGE) ? 3 : 1); ++kind) scenario(op, size, spare, pos, c, kind);
+            for (int kind = 0; kind < ((op == F_INSERT_RANGE || op == F_ASSIGN_RANGE || op == F_APPEND_RANGE || op == F_CTOR_RANGE) ? 4 : 1); ++kind) scenario(op, size, spare, pos, c, kind);
           }
       }
     }
@@ -154,7 +154,7 @@ struct FaultSweep : GridBase {
     Val x = EI<E>::norm(Val(5, ++paycnt));
     E *e;
     { MonScope m; e = new E(x.key, x.pay); }
-    static const int kinds[] = {RK_PTR, RK_LIST, RK_MOVE};  // move iterators: a range the library may (wrongly) take for single-pass
+    static const int kinds[] = {RK_PTR, RK_LIST, RK_MOVE, RK_PROTO};  // move iterators: a range the library may (wrongly) take for single-pass; values of another type: the conversion is the throwing event
     long pts = 0;
     Vec *np = nullptr;  // object under construction (constructor scenarios)
     switch (op) {
